@@ -10,6 +10,7 @@ atomically; release removes it) and a tile file whose write takes two steps.  z3
 CrossHair: the lock path is a function of the position only (any format argument), distinct positions have distinct
 lock paths.  Counterexample schedules are replayed on the real update_image with real files in a scratch directory.
 """
+from vlib.core import soft_attr as core_u
 import os
 import shutil
 import tempfile
@@ -715,7 +716,7 @@ def check(run):
     # the worker processes that call update_image: what they do to lock files outside it is extracted from the real worker
     import toasty.multi_tan as tmt
     import toasty.multi_wcs as tmw
-    run.uses(tmt._mp_tile_worker, tmw._mp_tile_worker)
+    run.uses(core_u(tmt, "_mp_tile_worker"), core_u(tmw, "_mp_tile_worker"))
     for caller in ("multi_tan", "multi_wcs"):
         nm = "%s-worker.leaves-lock-files-alone" % caller
         try:
